@@ -14,7 +14,7 @@ REPO = os.environ.get("VERIF_REPO", "/repo")
 def run_repo_tests(ctx, select=None):
     import pytest
 
-    args = [os.path.join(REPO, "tests"), "-q", "-p", "no:cacheprovider", "--timeout=300", "-x" if False else "-q", "--no-header", "-W", "ignore"]
+    args = [os.path.join(REPO, "tests"), "-q", "-p", "no:cacheprovider", "--timeout=20", "-x" if False else "-q", "--no-header", "-W", "ignore"]
     if select:
         args += ["-k", select]
     buf = io.StringIO()
